@@ -1842,12 +1842,6 @@ pub trait Serialize {
         ensures serializer.str_rel(self.ser_text(), r);
 }
 
-pub trait Error: Sized {
-    spec fn custom_spec<M>(msg: M) -> Self;
-    fn custom<M>(msg: M) -> (r: Self)
-        ensures r == Self::custom_spec(msg);
-}
-
 pub trait Visitor: Sized {
     type Value;
     spec fn visit_str_rel<E: Error>(self, v: Seq<char>, r: Result<Self::Value, E>) -> bool;
@@ -1874,6 +1868,15 @@ pub trait Deserialize: Sized {
     fn deserialize<D>(deserializer: D) -> (r: Result<Self, D::Error>)
         where D: Deserializer
         ensures Self::de_rel(deserializer, r);
+}
+
+// ---- unit theory.serde_post  <= (contracts):0 ----
+// ---- R9 (continued): the error side of the serde stubs and the deserialising postcondition (shared by group `serde`, where the
+// three impl blocks are verified against it, and group `c01`, where the round-trip theorems are stated over it) ----
+pub trait Error: Sized {
+    spec fn custom_spec<M>(msg: M) -> Self;
+    fn custom<M>(msg: M) -> (r: Self)
+        ensures r == Self::custom_spec(msg);
 }
 
 /// C16, deserialising side: a string value is accepted exactly when the parser accepts it, with the parser's value;
